@@ -2,4 +2,5 @@
 EXTENDS HedRewrite
 KindsDef == {"p1", "p2", "v", "bad", "def", "on", "off", "dur", "del", "uq"}
 SFlawsDef == {"none"}
+BasesEmpty == {[par |-> <<>>, kind |-> <<>>]}
 ====
